@@ -123,7 +123,15 @@ def r2(ctx):
         if b.qname == 'AffTree::infeasible_elimination':
             tree, node = node_of(tgt)
             R = Resolver(b)
-            alts = val[2] if val and val[0] == 'phi' else (val,)
+            def flat(v):
+                # joins of joins (each phase tried through a helper that keeps a conclusive state) are one set of alternatives
+                if v and v[0] == 'phi' and len(v) >= 3:
+                    out = []
+                    for a in v[2]:
+                        out.extend(flat(a))
+                    return out
+                return [v]
+            alts = tuple(flat(val)) if val else (val,)
             names = sorted({a[1] for a in alts if a and a[0] == 'call'})
             good = node is not None and names == ['AffTree::phase_inh', 'AffTree::phase_one', 'AffTree::phase_two']
             # stored at the node the phases were computed for
